@@ -583,7 +583,7 @@ func c10R4(r *Report) {
 			"Reader.request can return through the same-piece shortcut without having tested pos >= 0: request(-1, -1) — the withdrawal issued by Close, EOF, cancellation and errors — computes piece uint32(-1/pieceSize) == 0, so a reader positioned in piece 0 returns early and never withdraws its priorities (the pieces stay requested forever)")
 	}
 	// (d) Close and the error exits of Read withdraw
-	isWithdrawCall := func(in ssa.Instruction) bool {
+	isWithdrawCall := viaLocal(func(in ssa.Instruction) bool {
 		c, ok := in.(*ssa.Call)
 		if !ok || c.Call.StaticCallee() != req {
 			return false
@@ -591,7 +591,7 @@ func c10R4(r *Report) {
 		a, ok1 := constInt(c.Call.Args[1])
 		b, ok2 := constInt(c.Call.Args[2])
 		return ok1 && ok2 && a < 0 && b < 0
-	}
+	})
 	r.Fn(closeF)
 	r.Check(len(exitsAvoiding(closeF.Blocks[0].Instrs[0], isWithdrawCall, false)) == 0 || isWithdrawCall(closeF.Blocks[0].Instrs[0]), "R4", "Reader.Close/withdraws", closeF.Pos(), "Close withdraws the reader's priorities on every path", "Reader.Close can return without request(-1, -1)")
 	r.Fn(read)
